@@ -1,10 +1,13 @@
 from check import Job
 EXPLANATION = 'the host classifiers that gate append_candidate: every IPv4 address in an IANA special-purpose block of the statement is classified non-routable, as octets, as dotted-quad text and as IPv4-mapped IPv6 text'
 ASSUMPTIONS = ['encoded: is_private_or_reserved_ipv4 / parse_ipv4 / is_private_or_reserved_ipv6 / is_private_or_reserved_host of network/AdvertiseDiscovery.cpp; texts are of the shapes AB.C.DDD.E, ABC.C.DDD.E, AB.CD.DDD.E, ABC.CDE.DDD.E (symbolic digits), plain or with the ::ffff: prefix as inet_ntop prints mapped addresses',
-               'not encoded: the candidate assembly (unordered_set/unordered_map of strings, std::to_string) and Node-side publication, warn mode and auto-advertise-off: outside the claim; native IPv6 special ranges are not compared against a reference here']
+               'the publication step: Node::refresh_advertised_endpoints is lifted onto a partial Node and run over the real build_transport_advertise_candidates / select_public_advertise_candidate with enumerated discovery outcomes (jobs refresh-*): off publishes nothing automatic, warn withholds conflicting candidates, stale automatic endpoints are not carried over, nothing non-routable is published; the NAT traversal itself and manifest hint generation are not encoded; native IPv6 special ranges are not compared against a reference here']
 def jobs(tier):
     out = [Job('octets', 'adv.cpp', 'h_c34_v4', [0], reach=['nonroutable', 'routable'], bounds='all 2^32 IPv4 addresses')]
     for mapped in (0, 1):
         for fd, sd in ((2, 1), (3, 1), (2, 2), (3, 2), (3, 3)):
             out.append(Job('text-m%d-%d-%d' % (mapped, fd, sd), 'adv.cpp', 'h_c34_text', [mapped, fd, sd], reach=['nonroutable'], bounds='mapped=%d, octet digit counts %d/%d/3/1' % (mapped, fd, sd), timeout=900))
+    SNR = {'SNIP_REFRESH': ('src/core/Node.cpp', 're:^[A-Za-z_:<>, 0-9]*\\bNode::refresh_advertised_endpoints\\(')}
+    for mode, name in ((0, 'on'), (1, 'warn'), (2, 'off')):
+        out.append(Job('refresh-' + name, 'adv_node.cpp', 'h_c34_refresh', [mode], reach=['refreshed'], snippets=SNR, timeout=1500, bounds='Node::refresh_advertised_endpoints (lifted) over the real candidate assembly, auto-advertise %s; pinned / stale endpoints, transport port, NAT status, STUN result, external address kind and port, control host symbolic (enumerated)' % name))
     return out
